@@ -837,3 +837,175 @@ Proof.
     unfold e_end in Ho3. rewrite r_end_nosat in Ho3 by auto. lia.
   - specialize (Ho2 e He). unfold before, e_end in Ho2. cbn in Ho2. rewrite r_end_nosat in Ho2 by auto. lia.
 Qed.
+
+(* --------------------------------------- std::set::lower_bound on the real tree ---- *)
+(* libstdc++ _Rb_tree::_M_lower_bound(x, y, k):
+     while (x != 0) if (!comp(key(x), k)) y = x, x = left(x); else x = right(x);  return iterator(y);
+   An iterator is identified with the in-order suffix that starts at its node (end() = []).
+   [y] is the suffix of the current candidate = everything after the current subtree. *)
+Inductive tree := Leaf | Node (l : tree) (x : entry) (r : tree).
+Fixpoint inorder (t : tree) : list entry :=
+  match t with Leaf => [] | Node l x r => inorder l ++ x :: inorder r end.
+Fixpoint tree_lb (o : Z) (t : tree) (y : list entry) : list entry :=
+  match t with
+  | Leaf => y
+  | Node l x r => if e_end x <=? o                       (* comp(key(x), k): x.end() <= k.offset *)
+                  then tree_lb o r y
+                  else tree_lb o l (x :: inorder r ++ y)
+  end.
+
+Lemma lb_split_skip o a : forall b, Forall (fun x => e_end x <= o) a -> snd (lb_split o (a ++ b)) = snd (lb_split o b).
+Proof.
+  induction a as [|x a IH]; intros b H; cbn; auto.
+  inversion H; subst. apply Z.leb_le in H2. rewrite H2.
+  specialize (IH b H3). destruct (lb_split o (a ++ b)). cbn in *. auto.
+Qed.
+
+Lemma lb_split_stop o b : match b with [] => True | h :: _ => o < e_end h end -> snd (lb_split o b) = b.
+Proof. destruct b as [|h b]; cbn; auto. intros H. apply Z.leb_gt in H. rewrite H. reflexivity. Qed.
+
+Lemma tree_lb_spec o t : forall y,
+  ordered (inorder t ++ y) -> Forall wf_e (inorder t ++ y) ->
+  match y with [] => True | h :: _ => o < e_end h end ->
+  tree_lb o t y = snd (lb_split o (inorder t ++ y)).
+Proof.
+  induction t as [|l IHl x r IHr]; intros y Ho Hw Hy; cbn [tree_lb inorder].
+  - cbn. symmetry. apply lb_split_stop. exact Hy.
+  - cbn [inorder] in Ho, Hw.
+    assert (Heq : (inorder l ++ x :: inorder r) ++ y = inorder l ++ x :: (inorder r ++ y)) by (rewrite <- app_assoc; reflexivity).
+    rewrite Heq in *. clear Heq.
+    destruct (e_end x <=? o) eqn:E.
+    + apply Z.leb_le in E.
+      pose proof (ordered_app_inv (inorder l) (x :: inorder r ++ y) Ho) as (_ & Ho2 & _).
+      pose proof (proj2 (proj1 (Forall_app _ (inorder l) (x :: inorder r ++ y)) Hw)) as Hw2.
+      apply ordered_cons_inv in Ho2. destruct Ho2 as [Ho2 _]. inversion Hw2; subst.
+      rewrite IHr; auto.
+      change (inorder l ++ x :: inorder r ++ y) with (inorder l ++ [x] ++ (inorder r ++ y)).
+      rewrite app_assoc. rewrite (lb_split_skip o (inorder l ++ [x]) (inorder r ++ y)); auto.
+      apply Forall_app; split; [|constructor; auto].
+      rewrite Forall_forall. intros z Hz. apply in_split in Hz. destruct Hz as (l1 & l2 & Hz).
+      pose proof (ordered_end_mono _ Ho Hw z x l1 (l2 ++ x :: inorder r ++ y)) as Hm.
+      rewrite Hz in Hm. rewrite <- app_assoc in Hm. cbn in Hm. specialize (Hm eq_refl).
+      assert (In x (l2 ++ x :: inorder r ++ y)) by (apply in_or_app; right; left; auto). specialize (Hm H). lia.
+    + apply Z.leb_gt in E. rewrite IHl; auto.
+Qed.
+
+(* lower_bound_partition: on every tree whose in-order sequence satisfies the ordering invariant,
+   libstdc++'s descent returns exactly the position the list model computes (whatever the shape) *)
+Lemma lower_bound_partition_proof o t : ordered (inorder t) -> Forall wf_e (inorder t) ->
+  tree_lb o t [] = snd (lb_split o (inorder t)).
+Proof.
+  intros Ho Hw. rewrite (tree_lb_spec o t []); rewrite ?app_nil_r; auto.
+Qed.
+
+(* the position is also the one emplace_hint needs: everything before it is < r, and in the insert branch
+   r < *it (or it == end()), so _M_get_insert_hint_unique_pos accepts the hint (no fallback search) *)
+Lemma hint_exact_proof s o pre post : inv s -> lb_split o (idx s) = (pre, post) ->
+  Forall (fun x => r_lt (e_off x) (e_len x) o = true) pre /\
+  Forall (fun x => r_lt (e_off x) (e_len x) o = false) post.
+Proof.
+  intros [Ho Hw _] E. split.
+  - pose proof (lb_split_pre _ _ _ _ E) as H. eapply Forall_impl; [|exact H]. intros x Hx. apply Z.leb_le; auto.
+  - pose proof (lb_split_post _ _ _ _ Ho Hw E) as H. eapply Forall_impl; [|exact H]. intros x Hx. apply Z.leb_gt; auto.
+Qed.
+
+(* ------------------------------------------------------ the undefined insertion ---- *)
+Definition G_strict (c : op) : Prop := op_u64 c /\ op_P nosat c /\ op_P nonempty c.
+
+Lemma attempt_no_ub s t k o l u : nosat o l -> nonempty o l -> ~ In (EvUB u) (snd (attempt s t k o l)).
+Proof.
+  intros Hn He. unfold nosat, nonempty in *. unfold attempt. destruct (lb_split o (idx s)) as [pre post].
+  assert (Hd : dup_empty pre o l = false).
+  { unfold dup_empty. rewrite r_end_nosat by auto. destruct (o + l =? o) eqn:E2; auto. apply Z.eqb_eq in E2. lia. }
+  rewrite Hd. destruct post as [|x post']; cbn.
+  - intros [H|[]]; discriminate.
+  - destruct (e_off x <? r_end o l); cbn; intros [H|[]]; discriminate.
+Qed.
+
+(* under the F3/F4 guards the std::set precondition is never violated, whatever the interleaving *)
+Lemma rl_no_ub_proof s : reachable G_strict s ->
+  (forall c u, G_strict c -> ~ In (EvUB u) (snd (exec_op s c))) /\
+  (forall t u, ~ In (EvUB u) (snd (wake s t))).
+Proof.
+  intros Hr.
+  destruct (reachable_P nosat G_strict s (fun c Hc => proj1 (proj2 Hc)) Hr) as [_ Hn].
+  destruct (reachable_P nonempty G_strict s (fun c Hc => proj2 (proj2 Hc)) Hr) as [_ He].
+  split.
+  - intros c u (Hc1 & Hc2 & Hc3). unfold exec_op. destruct (is_pending s (op_tid c)); [cbn; intros [H|[]]; discriminate|].
+    destruct c as [t k o l|t o l|t h|t h o l]; cbn in Hc2, Hc3.
+    + apply attempt_no_ub; auto.
+    + unfold unlock_range. destruct (lb_split o (idx s)). destruct (unlock_loop o l l1). cbn; intros [H|[]]; discriminate.
+    + unfold unlock_handle. destruct (find_id h (idx s)) as [[[a x] b]|]; cbn; intros [H|[]]; discriminate.
+    + unfold adjust_range, adjust_range_gen. destruct h as [h|]; [|cbn; intros [H|[]]; discriminate].
+      destruct (find_id h (idx s)) as [[[a x] b]|]; [|cbn; intros [H|[]]; discriminate].
+      match goal with |- context [if ?c then _ else _] => destruct c end; cbn; intros [H|[]]; discriminate.
+  - intros t u. unfold wake. destruct (lookup_pend t (pend s)) as [p|] eqn:E; [|cbn; tauto].
+    apply lookup_pend_in in E. rewrite Forall_forall in Hn, He. specialize (Hn _ E). specialize (He _ E). cbn in Hn, He.
+    destruct (p_kind p); try (cbn; intros [H|[]]; discriminate).
+    apply attempt_no_ub; auto.
+Qed.
+
+(* ------------------------------------------------------------- refutations ---- *)
+Definition T64 : Z := 18446744073709551616.
+
+(* F3: unlock(5,0) does not erase the range taken by try_lock_wait(5,0) ... *)
+Definition f3_ops : list op := [OTry 1 KT 5 0; OUnlock 1 5 0; OTry 2 KL 4 2].
+Lemma f3_ops_u64 : Forall op_u64 f3_ops /\ Forall (op_P nosat) f3_ops.
+Proof. unfold f3_ops, op_u64, op_P, nosat, u64; rewrite MAX64_val; split; repeat constructor; lia. Qed.
+
+Lemma rl_unlock_erases_refuted_proof :
+  exists s t o l e, reachable op_u64 s /\ Forall (fun e => nosat (e_off e) (e_len e)) (idx s) /\ u64 o /\ u64 l /\ nosat o l /\
+    In e (idx (fst (unlock_range s t o l))) /\ o <= e_off e /\ e_off e + e_len e <= o + l.
+Proof.
+  exists (fst (run_ops init_state [OTry 1 KT 5 0])), 1, 5, 0, (mkE 5 0 0 []).
+  split. { apply run_ops_reachable; [constructor|reflexivity|]. unfold op_u64, u64; rewrite MAX64_val; repeat constructor; lia. }
+  assert (E : fst (run_ops init_state [OTry 1 KT 5 0]) = mkSt [mkE 5 0 0 []] 1 [] []) by (vm_compute; reflexivity).
+  rewrite E. cbn [idx].
+  split. { constructor; [|constructor]. unfold nosat; cbn [e_off e_len]. rewrite MAX64_val. lia. }
+  unfold u64, nosat; rewrite MAX64_val. cbn [e_off e_len]. repeat split; try lia.
+  assert (E2 : idx (fst (unlock_range (mkSt [mkE 5 0 0 []] 1 [] []) 1 5 0)) = [mkE 5 0 0 []]) by (vm_compute; reflexivity).
+  rewrite E2. left; reflexivity.
+Qed.
+
+(* ... and the thread that later asks for [4,6) parks on that zero-length node although its owner released it *)
+Lemma rl_f3_waits_forever_refuted_proof :
+  Forall op_u64 f3_ops /\ Forall (op_P nosat) f3_ops /\
+  let s := fst (run_ops init_state f3_ops) in
+  idx s = [mkE 5 0 0 [2]] /\ lookup_pend 2 (pend s) = Some (mkP KL 4 2 5 0) /\ ready s = [].
+Proof. split; [apply f3_ops_u64|]. split; [apply f3_ops_u64|]. vm_compute. auto. Qed.
+
+(* F3, worst form: a second empty range at the same point violates the Compare requirements of std::set *)
+Lemma rl_set_precondition_refuted_proof :
+  exists cs, Forall op_u64 cs /\ Forall (op_P nosat) cs /\
+    exists n evs ix, nth_error (run_case cs) n = Some (evs, ix) /\ In (EvUB 2) evs.
+Proof.
+  exists [OTry 1 KL 1 0; OTry 2 KL 1 0].
+  split. { unfold op_u64, u64; rewrite MAX64_val; repeat constructor; lia. }
+  split. { unfold op_P, nosat; rewrite MAX64_val; repeat constructor; lia. }
+  exists 1%nat. eexists. eexists. split; [vm_compute; reflexivity|]. left; reflexivity.
+Qed.
+
+(* F4: end() saturates at 2^64-1, so [2^64-10, 2^64) and [2^64-1, 2^64) are both granted: byte 2^64-1 is held twice *)
+Definition f4_ops : list op := [OTry 1 KT (T64 - 10) 10; OTry 2 KT (T64 - 1) 1].
+Lemma rl_disjoint_refuted_proof :
+  exists cs, Forall op_u64 cs /\ ~ disjoint_held (idx (fst (run_ops init_state cs))).
+Proof.
+  exists f4_ops. split.
+  { unfold f4_ops, op_u64, u64, T64; rewrite MAX64_val; repeat constructor; lia. }
+  intros H.
+  assert (E : idx (fst (run_ops init_state f4_ops)) = [mkE (T64 - 10) 10 0 []; mkE (T64 - 1) 1 1 []]) by (vm_compute; reflexivity).
+  rewrite E in H.
+  apply (H 0%nat 1%nat (mkE (T64 - 10) 10 0 []) (mkE (T64 - 1) 1 1 []) (T64 - 1)); try reflexivity; try discriminate;
+    unfold byte_in, T64; cbn [e_off e_len]; lia.
+Qed.
+
+(* F20 (repaired by repo_patches/C18-fix-adjust-range-notify.diff): before the repair adjust_range did not
+   notify; a thread parked on the node stayed parked although the new range no longer conflicts with it *)
+Lemma rl_adjust_prefix_refuted_proof :
+  let s := fst (run_ops init_state [OTry 1 KL 0 4; OTry 2 KL 2 2]) in
+  let s' := fst (adjust_range_gen false s 0 (Some 0) 0 1) in
+  snd (adjust_range_gen false s 0 (Some 0) 0 1) = [EvRet 0 0] /\
+  idx s' = [mkE 0 1 0 [2]] /\ lookup_pend 2 (pend s') = Some (mkP KL 2 2 0 4) /\ ready s' = [] /\
+  (* the same call on the repaired code wakes thread 2 *)
+  ready (fst (adjust_range s 0 (Some 0) 0 1)) = [2] /\ idx (fst (adjust_range s 0 (Some 0) 0 1)) = [mkE 0 1 0 []].
+Proof. vm_compute. repeat split; reflexivity. Qed.
